@@ -22,6 +22,8 @@ pub struct Outcome {
     pub sample: Option<serde_json::Value>,
     pub stats: BTreeMap<String, u64>,
     pub digest: u64,
+    /// an enumeration inside this run was cut short by the wall-clock cap: its digest is not comparable
+    pub deadline_cut: bool,
     pub harness_errors: Vec<String>,
 }
 
@@ -1061,6 +1063,7 @@ impl Scenario for MultiScenario {
             let sp = solo_plan(&plan, *i);
             let r = run_plan(&env.bins, &sp, &RunOpts::default());
             out.executions += r.incs.len() as u64;
+            out.digest = crate::rng::fnv_step(out.digest, history_hash(&r));
             solos.push((*i, r));
         }
         let removals = together.incs.iter().map(|i| i.events.iter().filter(|e| e.t == "io" && e.io.as_ref().map(|x| x.kind == "Remove").unwrap_or(false)).count() as u64).sum::<u64>();
@@ -1225,6 +1228,7 @@ impl C04Scenario {
             }
             for (act, name) in acts {
                 if std::time::Instant::now() >= env.deadline {
+                    out.deadline_cut = true;
                     return out;
                 }
                 let mut plan = base.clone();
@@ -1234,6 +1238,7 @@ impl C04Scenario {
                 plan.incarnations[0].sched.step_budget = (base_steps * 40).max(200_000);
                 let rr = run_plan(&env.bins, &plan, &RunOpts::default());
                 out.executions += rr.incs.len() as u64;
+                out.digest = crate::rng::fnv_step(out.digest, history_hash(&rr));
                 absorb_summary(&mut out, &rr);
                 out.stat("sim_clock_ms", sim_clock_ms(&rr, &plan));
                 let fired = rr.incs[0].events.iter().any(|e| e.t == "fault");
